@@ -3,6 +3,7 @@ package sm
 import (
 	"encoding/json"
 	"fmt"
+	"os"
 	"strings"
 
 	"verif/harness/core"
@@ -34,7 +35,8 @@ func plansFor(prop string, thorough bool) ([]Plan, int) {
 			{Name: "gov", Const: "gov", Kinds: []string{"vote", "seen", "dkgres", "replay"}, Depth: d(4, 6),
 				SimNum: d(60, 1500), SimDepth: d(40, 60), MaxBeh: d(2500, 40000)},
 			{Name: "tie", Const: "tie", Kinds: []string{"vote", "dkgres"}, Depth: d(6, 8), MaxBeh: d(1500, 30000)},
-			{Name: "rot", Const: "rot", Kinds: []string{"vote", "seen", "badvote", "forged"}, Depth: d(5, 7), MaxBeh: d(0, 0), Tags: true},
+			{Name: "rot", Const: "rot", Kinds: []string{"vote", "seen", "badvote", "forged"}, Depth: d(5, 7), MaxBeh: d(0, 0), Tags: true, Edges: true},
+			{Name: "outsider", Const: "out", Kinds: []string{"vote", "dkgres"}, Depth: d(4, 5), MaxBeh: d(0, 0), TagRefused: true, Edges: true},
 		}, 1
 	case "C12":
 		return []Plan{
@@ -42,6 +44,7 @@ func plansFor(prop string, thorough bool) ([]Plan, int) {
 				SimNum: d(60, 1500), SimDepth: d(40, 60), MaxBeh: d(2500, 40000)},
 			{Name: "val2-deep", Const: "val2", Kinds: []string{"vote", "seen", "checkin"}, Depth: d(8, 10), MaxBeh: d(0, 0)},
 			{Name: "val1-refused", Const: "val1", Kinds: []string{"seen", "checkin", "badcheckin", "vote", "badvote"}, Depth: d(6, 8), MaxBeh: d(0, 0), Tags: true},
+			{Name: "shrink", Const: "shrink", Kinds: []string{"vote", "seen", "checkin"}, Depth: d(8, 9), MaxBeh: d(0, 0), Edges: true},
 			{Name: "val6", Const: "val6", Kinds: []string{"seen", "checkin"}, Depth: d(4, 7), SimNum: d(150, 2000), SimDepth: d(40, 60), MaxBeh: d(1500, 30000)},
 		}, 1
 	case "C10":
@@ -85,6 +88,18 @@ func Check(c *core.Ctx) int {
 	if plans == nil {
 		fmt.Println("unknown property", c.Prop)
 		return core.ExitInconclusive
+	}
+	// development aid: VERIF_ONLY_PLAN=<name> runs a single plan; such a run writes no evidence and
+	// never ends with the OK line of a complete check
+	only := os.Getenv("VERIF_ONLY_PLAN")
+	if only != "" {
+		var sel []Plan
+		for _, p := range plans {
+			if p.Name == only {
+				sel = append(sel, p)
+			}
+		}
+		plans = sel
 	}
 	known := core.LoadKnown().For(c.Prop)
 	var outs []*Outcome
@@ -169,6 +184,10 @@ func Check(c *core.Ctx) int {
 				c.Violation(path, fmt.Sprintf("C13_FileIntact: save with write limit %d (encoding %d bytes) returned err=%v %q; loading the state file afterwards gives %q", l.Limit, l.Size, l.Err, l.Msg, l.Loaded))
 			}
 		}
+	}
+	if only != "" {
+		fmt.Printf("PARTIAL (VERIF_ONLY_PLAN=%s): %d violations; no evidence written\n", only, violations)
+		return core.ExitInconclusive
 	}
 	WriteEvidence(c, outs, violations, extra, assumptions())
 	if violations > 0 {
